@@ -58,7 +58,7 @@ def helper_preconditions(prog: Program, rep, RID: str, cname: str):
             if k.startswith("add_binary") and d.get("ub") != "1":
                 rep.violation(RID, key + ":kind", f"binary*continuous helper used although `{fam}` is declared with ub = {d.get('ub')} (not 1): "
                               "the McCormick rows are exact only for a 0/1 factor; multiplicities > 1 are cut off or mis-multiplied", loc)
-            elif d.get("var_type") != "'integer'":
+            elif d.get("var_type") != "'integer'" and not _int_by_validation(prog, cls, d.get("var_type"), e):
                 rep.violation(RID, key + ":kind", f"discrete factor `{fam}` is declared {d.get('var_type')}", loc)
             else:
                 rep.ok(RID, key + ":kind", f"{'binary' if k.startswith('add_binary') else 'integer'} helper matches declared range of {fam} (ub {str(d.get('ub'))[:40]})", loc)
@@ -87,6 +87,22 @@ def helper_preconditions(prog: Program, rep, RID: str, cname: str):
                 else:
                     rep.violation(RID, key + f":lb:{cf}", f"helper is told lb = `{hlb}` but `{cf}` is declared with lb = `{dlb}`", loc)
     return n
+
+
+def _int_by_validation(prog: Program, cls: ClassInfo, var_type: str, eff) -> bool:
+    """`integer iff weight_type == int` counts as integer where the constructor rejects float weights for the very
+    configuration under which the helper is used (kMinPathError: path length factors require integer weights)."""
+    if var_type != "('integer' if self.weight_type == int else 'continuous')":
+        return False
+    if not any("len(self.path_length_factors) > 0" in g for g in eff["guards"]):
+        return False
+    init = prog.lookup_method(cls, "__init__")
+    for st in walk_no_nested(init.node):
+        if isinstance(st, ast.If) and any(isinstance(b, ast.Raise) for b in st.body):
+            t = norm(st.test)
+            if "self.weight_type == float" in t and "len(self.path_length_factors) > 0" in t:
+                return True
+    return False
 
 
 # --------------------------------------------------------------------------------------- V4
